@@ -4,6 +4,8 @@ from .runner import Job
 LOOKUP = ('Utility::lookup', dict(select=r'const char ?\*'))
 
 # native counterpart of the ghost bookkeeping of contracts/Math_AngNormalize.c (replay only)
+# the reduced angle the clauses of sind / cosd / sincosd talk about is DEFINED as remquo(x, 90) (C standard): computed natively from that definition
+REMQUO_GHOST = '{ int q_ = 0; cap_d = std::remquo((double)x, 90.0, &q_); vm_last_k = q_; }'
 ANGNORM_GHOST = 'g_AngNormalize_calls = 1; g_AngNormalize_arg = %s; g_AngNormalize_ret = Math::AngNormalize(g_AngNormalize_arg);'
 
 # domain in which the AngNormalize contract pins its result (identity clause); used only to re-query replayable counterexamples
@@ -93,9 +95,9 @@ JOBS = [
     Job('Math.AngRound', 'Math::AngRound', ['C16', 'C14'], defines=['VERIF_ANGROUND_GAP=6.938893903907228e-18', 'VERIF_ANGROUND_T=double'], description='small-angle rounding (double)'),
     Job('Math.AngRound.float', 'Math::AngRound', ['C16'], real='float', cname='Math_AngRound', contract_name='Math_AngRound',
         defines=['VERIF_ANGROUND_GAP=3.7252903e-09f', 'VERIF_ANGROUND_T=float'], description='small-angle rounding (float)'),
-    Job('Math.sincosd', 'Math::sincosd', ['C16', 'C13', 'C14'], timeout=600, description='sine and cosine in degrees: quadrant logic, exact special values, signed zeros'),
-    Job('Math.sind', 'Math::sind', ['C16', 'C13', 'C14'], timeout=300, description='sine in degrees'),
-    Job('Math.cosd', 'Math::cosd', ['C16', 'C13', 'C14'], timeout=300, description='cosine in degrees'),
+    Job('Math.sincosd', 'Math::sincosd', ['C16', 'C13', 'C14'], replay_ghost=[REMQUO_GHOST], timeout=600, description='sine and cosine in degrees: quadrant logic, exact special values, signed zeros'),
+    Job('Math.sind', 'Math::sind', ['C16', 'C13', 'C14'], replay_ghost=[REMQUO_GHOST], timeout=300, description='sine in degrees'),
+    Job('Math.cosd', 'Math::cosd', ['C16', 'C13', 'C14'], replay_ghost=[REMQUO_GHOST], timeout=300, description='cosine in degrees'),
     Job('Math.AngDiff', 'Math::AngDiff', ['C16', 'C13', 'C14'], arity=3, select=r'T& ?e', replace=['Math::sum'], timeout=300,
         defines=['VERIF_SUM_MAX=8.988465674311579e307', 'VERIF_SUM_EXACT(s,t,u,v)=1', 'VERIF_SUM_EPS=1.1102230246251565e-16'], description='angle difference: range, NaN, error term bound'),
     Job('Math.AngDiff2', 'Math::AngDiff', ['C16', 'C14'], arity=2, cname='Math_AngDiff2', replace=[('Math::AngDiff', dict(arity=3))],
@@ -104,6 +106,8 @@ JOBS = [
     Job('Math.atan2d', 'Math::atan2d', ['C16', 'C01', 'C14'], description='arctangent in degrees: range, quadrant, exact axes'),
     # ---- text parsing (C10)
     Job('DMS.InternalDecode', 'DMS::InternalDecode', ['C10', 'C13', 'C14'], unwind=14, strcap=13, timeout=600,
+        # natively, "accepted as a DMS string" is observable from outside: no exception and not one of nummatch's special names
+        replay_ghost=['cap_main = !verif_thrown && Utility::nummatch<double>(dmsa_str) == 0;'],
         replace=[LOOKUP, 'Utility::nummatch'], description='DMS component parser (strings up to 12 characters, full unwinding: bounded)'),
     Job('DMS.DecodeLatLon', 'DMS::DecodeLatLon', ['C10', 'C13', 'C14'], replace=[('DMS::Decode', dict(select=r'string', may_throw=True))],
         description='latitude/longitude pair: coordinate order, hemisphere letters'),
@@ -160,6 +164,7 @@ JOBS = [
     Job('coeff.Ssize', 'coeff::Ssize', ['C19', 'C13', 'C14'], inline=['coeff::Csize'], sat='cadical', timeout=600, description='number of sine coefficients'),
     # ---- geocentric (C07)
     Job('Geocentric.ctor', 'Geocentric::Geocentric', ['C13', 'C07'], arity=2, description='constructor: parameter validation; establishes the class invariant used by IntReverse'),
+    Job('PolarStereographic.ctor', 'PolarStereographic::PolarStereographic', ['C13'], arity=3, replace=['Math::eatanhe'], description='constructor: parameter validation'),
     Job('Geocentric.Rotation', 'Geocentric::Rotation', ['C07', 'C13', 'C14'], description='rotation matrix: frame and copied entries'),
     Job('Geocentric.IntReverse', 'Geocentric::IntReverse', ['C07', 'C13', 'C14'], replace=['Math::atan2d', 'Geocentric::Rotation'], timeout=900, sat='cadical',
         description='geocentric -> geodetic: ranges of latitude and longitude, frame, optional matrix pointer'),
